@@ -571,6 +571,17 @@ func replayEval(f *family, c *tcase) {
 		}
 		if f.HasCdf && target.cdf != nil && target.logcdf != nil && len(xs) == 1 && c.Cls != "nonint" {
 			res.hasCdf = true
+			if variables {
+				// values only: with activated parameters the Normal LogCdf refuses
+				// loudly far in the tail (documented: use MagicLogCdf)
+				A2, B2, m2 := reconstruct(f, c, tt.t, false)
+				if m2 == "" {
+					target = A2
+					if c.W == 2 {
+						target = B2
+					}
+				}
+			}
 			r1 := NewScalar(tt.t, 0.0)
 			r2 := NewScalar(tt.t, 0.0)
 			var e1, e2 error
